@@ -95,14 +95,31 @@ def _pool_map(fn, tasks):
         return pool.map(fn, tasks, chunksize=1)
 
 
+_CCACHE = {}
+
+
 def _c(x):
     """canonical string of an entry (pharmpy Expr, number or str)"""
-    s = x if isinstance(x, str) else str(x)
+    if isinstance(x, str):
+        s = x
+    else:
+        try:
+            return _CCACHE[x]
+        except (KeyError, TypeError):
+            pass
+        s = str(x)
     try:
         f = float(s)
+        r = repr(round(f, 10) + 0.0)
     except (TypeError, ValueError):
-        return s
-    return repr(round(f, 10) + 0.0)
+        r = s
+    if not isinstance(x, str):
+        try:
+            if len(_CCACHE) < 100000:
+                _CCACHE[x] = r
+        except TypeError:
+            pass
+    return r
 
 
 def _isnum(s):
@@ -772,7 +789,16 @@ def _ops_for(ref, what='all'):
     for S in _subsets(names):
         for form in (('list',) if what != 'all' else ('list', 'rev', 'set', 'tuple', 'symlist')):
             yield {'op': 'getitem_list', 'S': S, 'form': form}
-    if what in ('first',):
+    if what == 'first':
+        return
+    if what == 'second':
+        syms = sorted(_symbols_of(ref))
+        if syms:
+            yield {'op': 'subs', 'kind': 'param_all', 'map': [[s, 'N_' + s] for s in syms]}
+        for p in range(0, k + 1):
+            yield {'op': 'add', 'split': p, 'form': 'rvs'}
+        for which in ('etas', 'epsilons', 'iiv', 'iov'):
+            yield {'op': 'select', 'which': which}
         return
     for i in range(-k, k):
         yield {'op': 'getitem_int', 'i': i}
@@ -914,7 +940,7 @@ def bounded_rv_algebra(tier):
              'name_template), getitem(int, name, symbol, slice, every name subset as list/reversed/set/tuple/symbols), subs(each parameter, '
              'all parameters, parameter->number, variable renames), + (every split into two collections, list/dist/radd forms, duplicate), '
              'etas/epsilons/iiv/iov, JointNormalDistribution getitem(int/name/slice/name subsets); two-operation sequences '
-             '(unjoin|join|getitem by names, then any RandomVariables operation) for all collections of <= %d variables and the all-IIV '
+             '(unjoin|join|getitem by names, then unjoin|join|getitem by names|subs|+|selections) for all collections of <= %d variables and the all-IIV '
              'collections of <= %d variables' % (n1, n2full, n2iiv))
     return col.result(bound)
 
